@@ -92,6 +92,10 @@ StepShipped ==
 
 Next == Pick \/ Guess \/ First \/ StepFixed \/ StepShipped \/ Round
 Spec == Init /\ [][Next]_vars
+\* "the computation terminates for every input": under weak fairness every behaviour reaches "done" ...
+FairSpec == Spec /\ WF_vars(Next)
+EventuallyDone == <>(pc = "done")
+\* ... and (invariant Terminates below) it gets there by the loop's own test, not by the step cap
 
 \* ---- properties
 SG == DMul(S, g)
